@@ -7,13 +7,17 @@ package limbox
 import (
 	"context"
 	"runtime"
+	"sync"
 	"time"
 
+	apierrors "k8s.io/apimachinery/pkg/api/errors"
 	metav1 "k8s.io/apimachinery/pkg/apis/meta/v1"
 	"k8s.io/client-go/tools/cache"
 
 	proxyv1alpha1 "github.com/kubewharf/kubegateway/pkg/apis/proxy/v1alpha1"
+	gatewayclientset "github.com/kubewharf/kubegateway/pkg/client/kubernetes"
 	gatewayfake "github.com/kubewharf/kubegateway/pkg/client/kubernetes/fake"
+	proxyclient "github.com/kubewharf/kubegateway/pkg/client/kubernetes/typed/proxy/v1alpha1"
 	proxylisters "github.com/kubewharf/kubegateway/pkg/client/listers/proxy/v1alpha1"
 	"github.com/kubewharf/kubegateway/pkg/ratelimiter/limiter"
 	"github.com/kubewharf/kubegateway/pkg/ratelimiter/limiter/elector"
@@ -96,6 +100,64 @@ func (c *Controller) Get(cluster string) (*proxyv1alpha1.UpstreamCluster, bool) 
 	return o.(*proxyv1alpha1.UpstreamCluster), true
 }
 
+// ListGate lets a history make one List of rate limit conditions (what a store's Load uses) hang and then fail, outside
+// the fake clientset's own lock (its reactors run under a lock that serialises every API call).
+type ListGate struct {
+	mu      sync.Mutex
+	armed   bool
+	arrived chan struct{}
+	release chan struct{}
+}
+
+// Arm makes the next List block; it returns the channel that signals its arrival and the function that lets it fail.
+func (g *ListGate) Arm() (<-chan struct{}, func()) {
+	g.mu.Lock()
+	defer g.mu.Unlock()
+	g.armed = true
+	g.arrived, g.release = make(chan struct{}, 1), make(chan struct{})
+	rel := g.release
+	return g.arrived, func() { close(rel) }
+}
+
+// Disarm cancels an Arm that no List has consumed.
+func (g *ListGate) Disarm() { g.mu.Lock(); g.armed = false; g.mu.Unlock() }
+
+type gatedClient struct {
+	gatewayclientset.Interface
+	gate *ListGate
+}
+
+func (c gatedClient) ProxyV1alpha1() proxyclient.ProxyV1alpha1Interface {
+	return gatedProxy{c.Interface.ProxyV1alpha1(), c.gate}
+}
+
+type gatedProxy struct {
+	proxyclient.ProxyV1alpha1Interface
+	gate *ListGate
+}
+
+func (p gatedProxy) RateLimitConditions() proxyclient.RateLimitConditionInterface {
+	return gatedConditions{p.ProxyV1alpha1Interface.RateLimitConditions(), p.gate}
+}
+
+type gatedConditions struct {
+	proxyclient.RateLimitConditionInterface
+	gate *ListGate
+}
+
+func (c gatedConditions) List(ctx context.Context, opts metav1.ListOptions) (*proxyv1alpha1.RateLimitConditionList, error) {
+	c.gate.mu.Lock()
+	armed, arrived, release := c.gate.armed, c.gate.arrived, c.gate.release
+	c.gate.armed = false
+	c.gate.mu.Unlock()
+	if armed {
+		arrived <- struct{}{}
+		<-release
+		return nil, apierrors.NewServerTimeout(proxyv1alpha1.Resource("ratelimitconditions"), "list", 1)
+	}
+	return c.RateLimitConditionInterface.List(ctx, opts)
+}
+
 // Box bundles the pieces.
 type Box struct {
 	Limiter    *limiter.VerifLimiter
@@ -103,6 +165,7 @@ type Box struct {
 	Controller *Controller
 	Client     *gatewayfake.Clientset
 	Shards     int
+	ListGate   *ListGate
 }
 
 // New builds a limiter box. storeKind is "local" or "k8s" (write-through, sync period 0).
@@ -111,8 +174,9 @@ func New(storeKind string, shards int, identity string) *Box {
 	ctl := &Controller{Indexer: cache.NewIndexer(cache.MetaNamespaceKeyFunc, cache.Indexers{})}
 	client := gatewayfake.NewSimpleClientset()
 	opts := options.RateLimitOptions{ShardingCount: shards, LimitStore: storeKind, Identity: identity, K8sStoreSyncPeriod: 0}
-	l := limiter.VerifNewRateLimiter(client, opts, realElector{el}, ctl)
-	return &Box{Limiter: l, Elector: el, Controller: ctl, Client: client, Shards: shards}
+	gate := &ListGate{}
+	l := limiter.VerifNewRateLimiter(gatedClient{client, gate}, opts, realElector{el}, ctl)
+	return &Box{Limiter: l, Elector: el, Controller: ctl, Client: client, Shards: shards, ListGate: gate}
 }
 
 // LeadAll gains leadership of every shard.
